@@ -218,7 +218,14 @@ fn apply_edit(r: &mut Rng, kind: &str, m: &Model, extras: &BTreeMap<String, Stri
         }
         "rename_file" => {
             let fi = r.below(m2.files.len() as u64) as usize;
-            m2.files[fi].path = format!("src/renamed_{}/{}.rs", r.pick(crate::model::WORDS), r.pick(crate::model::WORDS));
+            let (w1, w2) = (*r.pick(crate::model::WORDS), *r.pick(crate::model::WORDS));
+            // (the words are drawn first, as always; every third renamed file goes DEEP: eight
+            // directory levels below the project root)
+            m2.files[fi].path = if (w1.len() + w2.len()) % 3 == 0 {
+                format!("src/features/{}/exports/pdf/v2/internal/{}.rs", w1, w2)
+            } else {
+                format!("src/renamed_{}/{}.rs", w1, w2)
+            };
         }
         _ => {}
     }
